@@ -354,7 +354,7 @@ func (c *Client) Create(ctx context.Context, obj client.Object, opts ...client.C
 		o = no
 		md, _ = o["metadata"].(map[string]interface{})
 	}
-	md["uid"] = fmt.Sprintf("uid-%05d", s.uid)
+	md["uid"] = fmt.Sprintf("%suid-%05d", s.UIDPrefix, s.uid)
 	md["creationTimestamp"] = s.now()
 	md["generation"] = float64(1)
 	md["resourceVersion"] = s.nextRV()
